@@ -635,6 +635,11 @@ func (w *c01World) oneOp() {
 			} else if st.Status {
 				st.Status = false
 			} else {
+				if r.Chance(60) {
+					// several products of the app get open vaults first, in interleaved order: the redemption sweep then meets
+					// different collaterals minting one debt asset and one collateral minting different debt assets
+					w.populate(a, 2+r.Intn(4))
+				}
 				st = esmtypes.ESMStatus{AppId: a, Status: true, StartTime: w.now, EndTime: w.now.Add(time.Duration(r.Intn(72)) * time.Hour), SnapshotStatus: r.Chance(70)}
 				for _, id := range w.assetIDs {
 					if twa, f := w.app.MarketKeeper.GetTwa(w.ctx, id); f && r.Chance(90) {
@@ -1617,6 +1622,7 @@ func TestC01(t *testing.T) {
 	ops := scale(120, 300)
 	c01Corpus(t, tr)
 	c01CorpusTrigger2(t, tr)
+	c01CorpusEsmSweep(t, tr)
 	for s := 0; s < seqs; s++ {
 		w := c01NewWorld(t, tr, rng)
 		w.state()
@@ -2126,4 +2132,120 @@ func (w *c01World) esmWithdrawOp() bool {
 	}
 	w.tr.Count("op:withdraw-under-shutdown:no-candidate")
 	return false
+}
+
+// ---- emergency redemption over several collaterals / debt assets ------------------------------------------------------
+
+// openVault: `user` opens a vault of product p with principal `out` and `mult`/10 times the boundary collateral (funded).
+func (w *c01World) openVault(user sdk.AccAddress, p *c01Product, out sdk.Int, mult int64) bool {
+	in := w.crBoundaryIn(p, out).MulRaw(mult).QuoRaw(10).AddRaw(10)
+	if !in.IsPositive() || in.GTE(sdk.NewInt(1).MulRaw(1<<62)) {
+		return false
+	}
+	if bal := w.app.BankKeeper.GetBalance(w.ctx, user, w.denomOf[p.assetIn]).Amount; bal.LT(in) {
+		w.fund(user, p.assetIn, in.Sub(bal))
+	}
+	env := w.env(p.app, p.id, 0, false)
+	ok := w.deliver(&vaulttypes.MsgCreateRequest{From: user.String(), AppId: p.app, ExtendedPairVaultId: p.id, AmountIn: in, AmountOut: out})
+	w.tr.Count("op:create:" + c01Outcome(ok))
+	w.tr.Line("vault.msg", "create", fmt.Sprint(w.acct(user.String())), u(p.app), u(p.id), in.String(), out.String(), env, c01Outcome(ok))
+	w.state()
+	return ok
+}
+
+// populate opens up to n vaults on the ordinary products of `app`, cycling through the products so that consecutive vault ids
+// belong to different products (different collateral, same debt asset; same collateral, different debt asset).
+func (w *c01World) populate(app uint64, n int) {
+	r := w.rng
+	var ps []*c01Product
+	for i := range w.products {
+		if w.products[i].app == app && !w.products[i].isStable {
+			ps = append(ps, &w.products[i])
+		}
+	}
+	if len(ps) == 0 {
+		return
+	}
+	if r.Chance(50) {
+		// only products minting one debt asset (from different collaterals)
+		debt := ps[r.Intn(len(ps))].assetOut
+		var qs []*c01Product
+		for _, q := range ps {
+			if q.assetOut == debt {
+				qs = append(qs, q)
+			}
+		}
+		ps = qs
+	}
+	start := r.Intn(len(ps))
+	opened := 0
+	for i := 0; i < n; i++ {
+		p := ps[(start+i)%len(ps)]
+		ep, _ := w.app.AssetKeeper.GetPairsVault(w.ctx, p.id)
+		user := w.users[r.Intn(len(w.users))]
+		if _, has := w.app.VaultKeeper.GetUserAppExtendedPairMappingData(w.ctx, user.String(), p.app, p.id); has {
+			continue
+		}
+		if w.openVault(user, p, ep.DebtFloor.Add(w.amount(2)), int64(15+r.Intn(30))) {
+			opened++
+		}
+	}
+	w.tr.Count(fmt.Sprintf("op:populate:opened=%d", minInt(opened, 4)))
+}
+
+// c01CorpusEsmSweep: the emergency-redemption sweep over an app whose vaults mix collaterals and debt assets — ids in the
+// order ATOM→CMST, WETH→CMST, ATOM→EURX, ATOM→CMST (another user), WETH→CMST (another user) — then the real esm begin-blocker
+// after the cool-off period and holders' redemptions of both debt assets: the debt registered for redemption must be, per
+// debt asset, the sum of the principals of ALL swept vaults (`esmVault_registers_principal`).
+func c01CorpusEsmSweep(t *testing.T, tr *Trace) {
+	c01CorpusEsmSweepCase(t, tr, true)
+	c01CorpusEsmSweepCase(t, tr, false)
+}
+
+// oneDebt: only the products minting the first product's debt asset get vaults (different collaterals, ONE debt asset);
+// otherwise all ordinary products of the app (also one collateral with two debt assets)
+func c01CorpusEsmSweepCase(t *testing.T, tr *Trace, oneDebt bool) {
+	w := c01NewWorld(t, tr, NewRng(616161))
+	w.state()
+	app := w.apps[0]
+	var ps []*c01Product
+	for i := range w.products {
+		if w.products[i].app == app && !w.products[i].isStable && (!oneDebt || w.products[i].assetOut == w.products[0].assetOut) {
+			ps = append(ps, &w.products[i])
+		}
+	}
+	n := 0
+	for round := 0; round < 2; round++ {
+		if round >= len(w.users) {
+			break
+		}
+		for _, p := range ps {
+			if round == 1 && p.assetOut != ps[0].assetOut {
+				continue
+			}
+			ep, _ := w.app.AssetKeeper.GetPairsVault(w.ctx, p.id)
+			if w.openVault(w.users[round], p, ep.DebtFloor.AddRaw(int64(20_000_000+7_000_000*n)), 25) {
+				n++
+			}
+		}
+	}
+	w.tr.Count(fmt.Sprintf("corpus:esm-sweep:one-debt=%v:vaults=%d", oneDebt, n))
+	var rates []esmtypes.DebtAssetsRates
+	for _, id := range w.assetIDs {
+		rates = append(rates, esmtypes.DebtAssetsRates{AssetID: id, Rates: 1000000})
+		tw, _ := w.app.MarketKeeper.GetTwa(w.ctx, id)
+		w.app.EsmKeeper.SetSnapshotOfPrices(w.ctx, app, id, tw.Twa)
+	}
+	w.app.EsmKeeper.SetESMTriggerParams(w.ctx, esmtypes.ESMTriggerParams{AppId: app, TargetValue: sdk.NewCoin("uharbor", sdk.NewInt(1)), CoolOffPeriod: 3600, AssetsRates: rates})
+	w.app.EsmKeeper.SetESMStatus(w.ctx, esmtypes.ESMStatus{AppId: app, Status: true, StartTime: w.now, EndTime: w.now.Add(time.Hour), SnapshotStatus: true})
+	w.now = w.now.Add(2 * time.Hour)
+	for i := 0; i < 3; i++ {
+		w.height++
+		w.now = w.now.Add(6 * time.Second)
+		w.ctx = w.ctx.WithBlockHeight(w.height).WithBlockTime(w.now)
+		w.esmBlockOp()
+	}
+	for i := 0; i < 4 && w.esmRegistered(); i++ {
+		w.esmRedeemOp(w.users[i%len(w.users)])
+	}
 }
